@@ -14,7 +14,8 @@ Inductive observed :=
 
 (** what was observed for one text probed against the identityref type of the leaf:
     meta.FindIdentity(Type.Base(), text) (the identity returned) and node.NewValue(Type, text)
-    (the label of the value, None = rejected) *)
+    (the label of the value, None = rejected; since repair 873d214 the search starts below the
+    bases) *)
 Inductive pobs :=
 | PObs (found : option iid) (value : option text)
 | PPanic.
@@ -113,7 +114,7 @@ Definition model_bases (E : env) (l : leaf) : option (list iid) :=
   end.
 
 Definition model_probe (mods : list modl) (ids : list iid) (name : text) : option pobs :=
-  match find_identity (find_fuel mods) mods ids name, ident_value (find_fuel mods) mods ids name with
+  match find_identity (find_fuel mods) mods ids name, ident_value (value_fuel mods) mods ids name with
   | Found j, Some v => Some (PObs (Some j) v)
   | NotFound, Some v => Some (PObs None v)
   | _, _ => None
@@ -144,13 +145,17 @@ Definition local_name (x : text) : text :=
   end.
 Definition named (n : text) (l : list iid) : bool := existsb (fun j => text_eqb (snd j) n) l.
 
+(** The value path (node.NewValue) is judged by the RFC at full strength.  A direct call of the
+    helper meta.FindIdentity(Type.Base(), text) also answers for the candidates it is handed, that
+    is its contract: an identity it returns carries the name asked for and is a base or accepted;
+    it returns nothing only when no accepted identity carries the name. *)
 Definition spec_probe (mods : list modl) (bases : list iid) (p : text * pobs) : bool :=
   let acc := accepted_upward mods bases in
   match snd p with
   | PPanic => false
   | PObs fnd v =>
       match fnd with
-      | Some j => mem_iid j acc && text_eqb (snd j) (fst p)
+      | Some j => (mem_iid j acc || mem_iid j bases) && text_eqb (snd j) (fst p)
       | None => negb (named (fst p) acc)
       end
       && match v with
@@ -178,16 +183,11 @@ Definition spec_find (E : env) (l : leaf) (probes : list (text * pobs)) : bool :
   | None => false
   end.
 
-(** region 5: the text probed is the name of one of the bases (FindIdentity tests the candidates
-    themselves, so the base is accepted as a value; it is not derived from itself) *)
-Definition base_named (bases : list iid) (probes : list (text * pobs)) : bool :=
-  existsb (fun p => named (fst p) bases || named (local_name (fst p)) bases) probes.
-
+(** (region 5, the name of a base accepted as a value, is closed by repair 873d214 of toIdentRef) *)
 Definition known_find (E : env) (l : leaf) (probes : list (text * pobs)) : option nat :=
   match resolve (leaf_fuel E l) (e_mods E) (lf_pos l) (lf_type l), spec_bases E l with
   | Ok r, Some bases =>
       if multibase_region r then Some 2%nat
-      else if base_named bases probes then Some 5%nat
       else None
   | _, _ => None
   end.
